@@ -5,10 +5,14 @@ import HgVerif.Driver.Proto
 for the recover / as-of stream, as `harness/drv_recover.cpp` (ops `record`, `asof`, `onetime`, `replay`, `values`).
 
 The model's key universe is `{0 … 9}` (`U`): set elements and dictionary keys are `0..9` (`Int`) or
-`s0..s9` (`Str`); bundle fields are named positionally `a, b, c, …`. -/
+`s0..s9` (`Str`); bundle fields are named positionally `a, b, c, …`.  `TSL<S>` (no size) is the dynamic list
+`tsld`; its delta text may name the indices `0 … DYN_MAX-1`.  `source raw`: the ticks of the case are written to
+the source through the raw output API (`write` of `Model/Delta.lean`), `touch c i` grows a top-level dynamic list
+without a write. -/
 open HgVerif.Delta HgVerif.Driver
 
 def U : Nat := 10
+def DYN_MAX : Nat := 12
 
 abbrev P (α : Type) := List Char → Option (α × List Char)
 
@@ -51,11 +55,14 @@ partial def parseSchema (cs : List Char) : Option (Shape × List Char) :=
     pure (.tsd k U v, r)
   else if let some r := eatWord "TSL<" cs then do
     let (e, r) ← parseSchema r
-    let r ← expect ',' r
-    let (t, r) := tok r
-    let n ← t.toNat?
-    let r ← expect '>' r
-    if n == 0 then none else pure (.tsl e n, r)
+    match r with
+    | '>' :: r' => pure (.tsld e, r')
+    | _ =>
+      let r ← expect ',' r
+      let (t, r) := tok r
+      let n ← t.toNat?
+      let r ← expect '>' r
+      if n == 0 then none else pure (.tsl e n, r)
   else if let some r := eatWord "TSB<" cs then do
     let (fs, r) ← parseFields r 0
     let r ← expect '>' r
@@ -165,6 +172,19 @@ partial def parseDl : (s : Shape) → P (Dl s)
       if its.any (fun p => p.1 ≥ n) then none
       let d : List (Option (Dl e)) := (List.range n).map fun i => lookupLast i its
       pure (d, r)
+  | .tsld e, cs => do
+      let cs ← expect '[' cs
+      let (its, r) ← items ']' (fun cs => do
+        let (t, r) := tok cs
+        let i ← scalarOf false t
+        let r ← expect '=' r
+        let (d, r) ← parseDl e r
+        pure ((i, d), r)) cs
+      if its.any (fun p => p.1 ≥ DYN_MAX) then none
+      -- a map: positions up to the largest named index, nothing after it
+      let hi := its.foldl (fun a p => max a (p.1 + 1)) 0
+      let d : List (Option (Dl e)) := (List.range hi).map fun i => lookupLast i its
+      pure (d, r)
   | .tsb fs, cs => do
       let cs ← expect '(' cs
       let rec loop (cs : List Char) (acc : List (Nat × (Σ f : Shape, Dl f))) :
@@ -217,6 +237,12 @@ def showDlL : (s : Shape) → Nat → Dl s → List String
       ["[" ++ joinC (idx.filterMap fun i => match d[i]? with
         | some (some dc) => some (toString i ++ "=" ++ joinC (showDlL e 0 dc))
         | _ => none) ++ "]"]
+  | .tsld e, _, d =>
+      let d : List (Option (Dl e)) := d
+      let idx := List.range d.length
+      ["[" ++ joinC (idx.filterMap fun i => match d[i]? with
+        | some (some dc) => some (toString i ++ "=" ++ joinC (showDlL e 0 dc))
+        | _ => none) ++ "]"]
   | .tsb fs, _, d => ["(" ++ joinC (showDlL fs 0 d) ++ ")"]
   | .bnil, _, _ => []
   | .bcons f r, i, d =>
@@ -238,6 +264,9 @@ def showStL : (s : Shape) → Nat → St s → List String
           | _ => none) ++ "}"
        else "_"]
   | .tsl e _, _, st => ["[" ++ joinC (st.map fun c => joinC (showStL e 0 c)) ++ "]"]
+  | .tsld e, _, st =>
+      let st : List (St e) := st
+      ["[" ++ joinC (st.map fun c => joinC (showStL e 0 c)) ++ "]#" ++ toString st.length]
   | .tsb fs, _, st => ["(" ++ joinC (showStL fs 0 st) ++ ")"]
   | .bnil, _, _ => []
   | .bcons f r, i, st => (fieldName i ++ "=" ++ joinC (showStL f 0 st.1)) :: showStL r (i + 1) st.2
@@ -276,6 +305,9 @@ def showV1L : (s : Shape) → Nat → V1 s → List String
   | .tsl e _, _, st =>
       let st : List (V1 e) := st
       ["[" ++ joinC (st.map fun c => joinC (showV1L e 0 c)) ++ "]"]
+  | .tsld e, _, st =>
+      let st : List (V1 e) := st
+      ["[" ++ joinC (st.map fun c => joinC (showV1L e 0 c)) ++ "]#" ++ toString st.length]
   | .tsb fs, _, st => ["(" ++ joinC (showV1L fs 0 st) ++ ")"]
   | .bnil, _, _ => []
   | .bcons f r, i, st =>
@@ -317,8 +349,10 @@ def showVals {s : Shape} (l1 l2 : List (Nat × St s)) : String :=
 /-! ### the driver -/
 structure Run (s : Shape) where
   ticks : List (Nat × Dl s) := []          -- (cycle, delta), cycles strictly increasing
-  run1 : Option (Buffer s × St s) := none
-  run2 : Option (Buffer s × St s) := none
+  raw : Bool := false                      -- `source raw`: ticks are written through the raw output API
+  touches : List (Nat × Nat) := []         -- raw source: (cycle, index) `at(index)` without a write
+  run1 : Option (Buffer s × St s × List (Nat × St s)) := none      -- buffer, final state, probe (cycle, state)
+  run2 : Option (Buffer s × St s × List (Nat × St s)) := none
   srun1 : Option (Recording s × List (Nat × St s)) := none     -- recover stream: graph 1 (recording, probe)
   srun2 : Option (Recording s × List (Nat × St s)) := none     -- recover stream: graph 2
 
@@ -327,6 +361,81 @@ structure DS where
 
 def seedOf {s : Shape} (ticks : List (Nat × Dl s)) : Buffer s :=
   ticks.foldl (fun buf t => buf ++ List.replicate (t.1 - buf.length) none ++ [some t.2]) []
+
+/-! ### the raw source (`harness/replay_raw.h`) -/
+
+/-- `as_list().at(i)` on a top-level dynamic list without a write -/
+def growTop : (s : Shape) → Nat → St s → St s
+  | .tsld e, i, st => growTo (fresh e) (i + 1) st
+  | _, _, st => st
+
+/-- a step of the script: the touches of the cycle, then its write -/
+abbrev Step (s : Shape) := Nat × List Nat × Option (Dl s)
+
+def insertNat (x : Nat) : List Nat → List Nat
+  | [] => [x]
+  | y :: ys => if x < y then x :: y :: ys else if x == y then y :: ys else y :: insertNat x ys
+
+def rawScript {s : Shape} (ticks : List (Nat × Dl s)) (touches : List (Nat × Nat)) : List (Step s) :=
+  let cycles := (ticks.map (·.1) ++ touches.map (·.1)).foldl (fun acc c => insertNat c acc) []
+  cycles.map fun c =>
+    (c, (touches.filter (·.1 == c)).map (·.2), (ticks.find? (·.1 == c)).map (·.2))
+
+/-- the source's output after the evaluation that plays `step` (a new engine cycle: old marks gone) -/
+def rawStep {s : Shape} (st : St s) (step : Step s) : St s :=
+  let st1 := step.2.1.foldl (fun a i => growTop s i a) (clear s st)
+  match step.2.2 with
+  | some d => write s st1 d
+  | none => st1
+
+/-- (cycle, end-of-cycle state) of every evaluation of the raw source that plays a step -/
+def rawStates {s : Shape} (script : List (Step s)) : List (Nat × St s) :=
+  (script.foldl (fun (acc : List (Nat × St s) × St s) step =>
+    let st := rawStep acc.2 step
+    (acc.1 ++ [(step.1, st)], st)) ([], fresh s)).1
+
+/-- graph 1 with the raw source: `hgv_rawsrc -> record(out)` + probe -/
+def rawRecord {s : Shape} (script : List (Step s)) : Buffer s × St s × List (Nat × St s) :=
+  let sts := rawStates script
+  (sts.foldl (fun buf e => recordEval buf e.1 e.2) [],
+   (match sts.getLast? with | some e => e.2 | none => fresh s),
+   sts.filter fun e => modified s e.2)
+
+/-- the probe next to the record node of `replay(in) -> record(out)`: the replay node's output per buffered cycle -/
+def replayProbe {s : Shape} (inp : Buffer s) : List (Nat × St s) :=
+  ((List.range inp.length).foldl (fun (acc : List (Nat × St s) × St s) i =>
+    let st := match inp[i]? with
+      | some (some d) => apply s acc.2 d
+      | _ => clear s acc.2
+    (if modified s st then acc.1 ++ [(i, st)] else acc.1, st)) ([], fresh s)).1
+
+def showStates {s : Shape} (l1 l2 : List (Nat × St s)) : String :=
+  let cycles := (l1.map (·.1) ++ l2.map (·.1)).foldl (fun acc c => insertNat c acc) []
+  let at_ (l : List (Nat × St s)) (c : Nat) : String := match l.find? (·.1 == c) with
+    | some e => showSt s e.2
+    | none => "-"
+  "states" ++ String.join (cycles.map fun c => s!" {c}:{at_ l1 c}|{at_ l2 c}")
+
+/-- recover stream, graph 1 with the raw source: `hgv_rawsrc -> sparse record` + value probe -/
+def rawRecordSparse {s : Shape} (script : List (Step s)) : Recording s × List (Nat × St s) :=
+  let sts := rawStates script
+  (sts.foldl (fun rec e => sparseRecordEval rec e.1 e.2) [],
+   sts.filterMap fun e => if modified s e.2 && valid s e.2 then some (e.1, clear s e.2) else none)
+
+/-- bare-output round trip with the raw source, step by step -/
+def directRaw {s : Shape} (script : List (Step s)) : String :=
+  let r := script.foldl (fun (acc : String × St s × St s) step =>
+    let src := rawStep acc.2.1 step
+    if !modified s src then
+      (acc.1 ++ s!" {step.1}:-|-|{showSt s src}|{showSt s acc.2.2}", src, clear s acc.2.2)
+    else
+      let d := capture s src
+      let dst := apply s acc.2.2 d
+      let d2 := if modified s dst then showDl s (capture s dst) else "-"
+      let obs := if observable s src d then "" else "!unobservable"
+      (acc.1 ++ s!" {step.1}:{showDl s d}{obs}|{d2}|{showSt s src}|{showSt s dst}", src, dst))
+    ("direct", fresh s, fresh s)
+  r.1
 
 /-- bare-output round trip, tick by tick (`direct` op of the C++ driver) -/
 def direct {s : Shape} (ticks : List (Nat × Dl s)) : String :=
@@ -357,22 +466,48 @@ def step (d : DS) (ws : List String) : DS × String :=
         match c.toNat? with
         | none => (d, "err:order")
         | some cyc =>
-          if r.ticks.any (fun p => cyc ≤ p.1) then (d, "err:order") else
+          if r.ticks.any (fun p => cyc ≤ p.1) || r.touches.any (fun p => cyc < p.1) then (d, "err:order") else
           match parseDl s t.toList with
           | some (dl, []) => ({ sch := some ⟨s, { r with ticks := r.ticks ++ [(cyc, dl)] }⟩ }, "ok")
           | _ => (d, "err:parse")
+  | ["source", m] =>
+      if m != "raw" && m != "delta" then (d, "bad-op") else
+      match d.sch with
+      | none => (d, "err:schema")
+      | some ⟨s, r⟩ =>
+          if !r.ticks.isEmpty || !r.touches.isEmpty then (d, "err:order")
+          else ({ sch := some ⟨s, { r with raw := m == "raw" }⟩ }, "ok")
+  | ["touch", c, i] =>
+      match d.sch with
+      | none => (d, "err:schema")
+      | some ⟨s, r⟩ =>
+          let dynTop := match s with
+            | .tsld _ => true
+            | _ => false
+          if !r.raw || !dynTop then (d, "err:mode") else
+          match c.toNat?, i.toNat? with
+          | some cyc, some idx =>
+              if idx ≥ DYN_MAX then (d, "err:parse")
+              else if r.ticks.any (fun p => cyc ≤ p.1) || r.touches.any (fun p => cyc < p.1) then (d, "err:order")
+              else ({ sch := some ⟨s, { r with touches := r.touches ++ [(cyc, idx)] }⟩ }, "ok")
+          | _, _ => (d, "err:parse")
   | ["run"] =>
       match d.sch with
       | none => (d, "err:schema")
       | some ⟨s, r⟩ =>
-          let res := replayRecord (seedOf r.ticks)
+          let res : Buffer s × St s × List (Nat × St s) :=
+            if r.raw then rawRecord (rawScript r.ticks r.touches)
+            else
+              let rr := replayRecord (seedOf r.ticks)
+              (rr.1, rr.2, replayProbe (seedOf r.ticks))
           ({ sch := some ⟨s, { r with run1 := some res, run2 := none }⟩ }, showBuf s "rec1" res.1)
   | ["rerun"] =>
       match d.sch with
       | some ⟨s, r⟩ =>
         (match r.run1 with
          | some r1 =>
-            let res := replayRecord r1.1
+            let rr := replayRecord r1.1
+            let res : Buffer s × St s × List (Nat × St s) := (rr.1, rr.2, replayProbe r1.1)
             ({ sch := some ⟨s, { r with run2 := some res }⟩ }, showBuf s "rec2" res.1)
          | none => (d, "err:norun"))
       | none => (d, "err:norun")
@@ -380,18 +515,25 @@ def step (d : DS) (ws : List String) : DS × String :=
       match d.sch with
       | some ⟨s, r⟩ =>
         (match r.run1, r.run2 with
-         | some r1, some r2 => (d, s!"val1={showSt s r1.2} val2={showSt s r2.2}")
+         | some r1, some r2 => (d, s!"val1={showSt s r1.2.1} val2={showSt s r2.2.1}")
+         | _, _ => (d, "err:norun"))
+      | none => (d, "err:norun")
+  | ["states"] =>
+      match d.sch with
+      | some ⟨_, r⟩ =>
+        (match r.run1, r.run2 with
+         | some r1, some r2 => (d, showStates r1.2.2 r2.2.2)
          | _, _ => (d, "err:norun"))
       | none => (d, "err:norun")
   | ["direct"] =>
       match d.sch with
       | none => (d, "err:schema")
-      | some ⟨_, r⟩ => (d, direct r.ticks)
+      | some ⟨_, r⟩ => (d, if r.raw then directRaw (rawScript r.ticks r.touches) else direct r.ticks)
   | ["record"] =>
       match d.sch with
       | none => (d, "err:schema")
       | some ⟨s, r⟩ =>
-          let res := recordSparse (seedOf r.ticks)
+          let res := if r.raw then rawRecordSparse (rawScript r.ticks r.touches) else recordSparse (seedOf r.ticks)
           ({ sch := some ⟨s, { r with srun1 := some res, srun2 := none }⟩ }, showRec s "srec" res.1)
   | ["asof"] =>
       match d.sch with
